@@ -217,6 +217,9 @@ struct S {
     /// the first instance of type 1 that starts fails in started() (whichever it is: the one
     /// spawned on demand or one a client registers); later ones start fine
     first_start_fails: bool,
+    /// the services' stopped() hook gives way twice: there is a while between "asked to stop" and
+    /// "gone", during which the instance is what it was - registered and not yet terminated
+    slow_stop: bool,
 }
 
 impl Scene for S {
@@ -224,6 +227,11 @@ impl Scene for S {
         let mut r = vec![RoleCfg::default(), RoleCfg::default(), RoleCfg::default()];
         if self.first_start_fails {
             r[1].started = vec![crate::world::StartBeh::Err];
+        }
+        if self.slow_stop {
+            for x in r.iter_mut() {
+                x.stopped_yields = 2;
+            }
         }
         r
     }
@@ -662,9 +670,14 @@ fn spawns(op: ROp) -> bool {
     matches!(op, ROp::RegisterNew | ROp::ReplaceNew | ROp::RegisterNewStopped)
 }
 
+thread_local! {
+    static SLOW_STOP: std::cell::Cell<bool> = const { std::cell::Cell::new(false) };
+}
+
 fn push_case(v: &mut Vec<Case>, programs: Vec<Vec<(u8, ROp)>>, preregistered: bool, bound: Option<u32>) {
     let desc = format!(
-        "registry pre={} programs={}",
+        "registry{} pre={} programs={}",
+        if SLOW_STOP.with(|x| x.get()) { " [stopped() takes a while]" } else { "" },
         preregistered,
         programs
             .iter()
@@ -680,7 +693,7 @@ fn push_case(v: &mut Vec<Case>, programs: Vec<Vec<(u8, ROp)>>, preregistered: bo
         desc,
         exec: ExecCfg { yield_holding_lock: holding, ..ExecCfg::default() },
         bound,
-        scene: Box::new(S { programs, preregistered, first_start_fails: false }),
+        scene: Box::new(S { programs, preregistered, first_start_fails: false, slow_stop: SLOW_STOP.with(|x| x.get()) }),
     });
 }
 
@@ -765,7 +778,7 @@ fn cases(tier: Tier) -> Vec<Case> {
         for p in progs {
             let desc = format!("registry [first start of the type fails] programs={}", p.iter().map(|c| c.iter().map(|(k, o)| format!("{o:?}{k}")).collect::<Vec<_>>().join(",")).collect::<Vec<_>>().join(" | "));
             let bound = if p.len() >= 3 { Some(if tier == Tier::Quick { 4 } else { 6 }) } else { None };
-            v.push(Case { desc, exec: ExecCfg { yield_holding_lock: true, ..ExecCfg::default() }, bound, scene: Box::new(S { programs: p, preregistered: false, first_start_fails: true }) });
+            v.push(Case { desc, exec: ExecCfg { yield_holding_lock: true, ..ExecCfg::default() }, bound, scene: Box::new(S { programs: p, preregistered: false, first_start_fails: true, slow_stop: false }) });
         }
     }
     // the builder's register() terminal: like register(), it succeeds exactly when no live
@@ -801,6 +814,23 @@ fn cases(tier: Tier) -> Vec<Case> {
             push_case(&mut v, p, false, None);
         }
     }
+    // a service whose stopped() hook takes a while: between the stop request and the end of its
+    // task it is still the registered, running instance
+    SLOW_STOP.with(|x| x.set(true));
+    {
+        let f = (1u8, ROp::FromRegistry);
+        let progs: Vec<Vec<Vec<(u8, ROp)>>> = vec![
+            vec![vec![f, (1, ROp::StopHeld), (1, ROp::AlreadyRunning)], vec![f]],
+            vec![vec![f, (1, ROp::StopHeld)], vec![(1, ROp::TryFromRegistry), (1, ROp::AlreadyRunning)]],
+            vec![vec![f, (1, ROp::SelfStopHeld)], vec![f, (1, ROp::AlreadyRunning)]],
+            vec![vec![f, (1, ROp::StopHeld)], vec![(1, ROp::RegisterNew)]],
+            vec![vec![f, (1, ROp::StopHeld)], vec![(1, ROp::Setup), (1, ROp::TryFromRegistry)]],
+        ];
+        for p in progs {
+            push_case(&mut v, p, false, None);
+        }
+    }
+    SLOW_STOP.with(|x| x.set(false));
     // registering an instance that has already ended: what counts is what the registry holds
     {
         let f = (1u8, ROp::FromRegistry);
